@@ -137,15 +137,13 @@ def check(s):
     # ---------------------------------------------------------------- C11.3 non-interference
     for cls in ("PPO", "A2C", "REINFORCE", "DQN", "SAC"):
         ci = P.cls(cls)
-        for meth in LOOP:
-            r = P.resolve_method(ci, meth)
-            if r is None:
-                continue
-            dc, fn = r
-            if dc.is_abstractmethod(meth):
-                continue
+        # every definition of the method along the MRO is analysed (an override that calls super() relies on the summary of the
+        # base definition, so the base definition has to establish that summary itself)
+        defs = [(dc_, dc_.methods[meth]) for meth in LOOP for dc_ in P.mro(ci) if meth in dc_.methods and not dc_.is_abstractmethod(meth)]
+        for dc, fn in defs:
+            meth = fn.name
             b = s.builder(inline={"next", "with_callback_states", "with_callback_state", "consolidate_callbacks", "_soft_update_targets"})
-            con = f"{cls}.{meth}"
+            con = f"{cls}.{meth}" if dc is P.resolve_method(ci, meth)[0] else f"{cls}.{meth}<{dc.name}>"
             loc = P.loc(dc.module, fn)
             for p in live(b.paths(fn, Ctx(dc.module, dc, fn, ci))):
                 tz = Taint(P, b, ci)
@@ -158,6 +156,34 @@ def check(s):
                 s.ob("C11.3", con, not bad, "Low outputs (everything but callback state) depend only on Low inputs", loc, key="callback-interference",
                      detail="High parts: " + ", ".join(bad) if bad else f"result shape {shape if not isinstance(shape, dict) else sorted(map(str, shape))}",
                      necessary_for="attaching observers does not change the trained policy")
+            # implicit flows: a Python-level branch whose test reads the callback (or callback state) must not select between
+            # different Low results. The static paths are merged back into one value (selection pushed inward to the parts
+            # that differ); a selection under a High test makes exactly those parts High.
+            lps = live(b.paths(fn, Ctx(dc.module, dc, fn, ci)))
+            if len(lps) > 1:
+                from .util import merge_paths
+                try:
+                    merged = merge_paths(lps)
+                except AnalysisError as e:
+                    merged = None
+                    tz0 = Taint(P, b, ci)
+                    tz0.param_taints(fn, dc.module, dc)
+                    hts = sorted({show(t, maxlen=100) for q in lps for t, v in q.conds if flat(tz0.of(t)) == H})
+                    # a branch on the callback whose two sides cannot be lined up is not shown harmless
+                    s.ob("C11.3", con + "[branches]", not hts, "branches on the callback could be compared side by side", loc, key="callback-branch-unmergeable",
+                         detail=f"{e}; tests reading the callback: " + "; ".join(hts))
+                if merged is not None:
+                    tz = Taint(P, b, ci)
+                    tz.param_taints(fn, dc.module, dc)
+                    if meth == "learn":
+                        tz.env[("param", "callback")] = H
+                    high_tests = sorted({show(t, maxlen=100) for q in lps for t, v in q.conds if flat(tz.of(t)) == H})
+                    out = tz.of(merged.ret)
+                    shape = tz.shape_of_annotation(dc.module, fn.returns, dc, fn)
+                    bad = violations(out, shape)
+                    s.ob("C11.3", con + "[branches]", not bad, "no branch on the callback (or its state) selects between different Low results", loc, key="callback-controlled-branch",
+                         detail=("High parts: " + ", ".join(bad) + "; tests reading the callback: " + "; ".join(high_tests)) if bad else f"{len(lps)} static paths, {len(high_tests)} tests read the callback",
+                         necessary_for="attaching observers (of whatever class, with or without per-step state) does not change the trained policy")
     for cls in ("AbstractOnPolicyStepState", "AbstractOffPolicyStepState"):
         ci, dc, fn = s.method(cls, "initial")
         b = s.builder(inline=set())
